@@ -20,7 +20,7 @@ ASSUMPTIONS = ["nvmon.ref exact reference model", "explored domain of DESIGN.md 
 FLOORS = {'quick': {'refine': 150, 'probe-lib': 2000, 'probe-defn': 2000, 'structure': 150, 'untouched': 60, 'helper': 60},
           'thorough': {'refine': 2000, 'probe-lib': 30000}}
 MANDATORY_TAGS = ['pdim1', 'pdim2', 'pdim3', 'rational', 'density2', 'density3', 'dirs:partial', 'dirs:all', 'helper:knot_list',
-                  'helper:add_knot_list', 'unnormalized', 'helper:single-knot-list', 'helper:knot_list+add_knot_list', 'helper:tuple-kv']
+                  'helper:add_knot_list', 'unnormalized', 'helper:single-knot-list', 'helper:knot_list+add_knot_list', 'helper:tuple-kv', 'unclamped']
 TECHNIQUE = ("runtime monitoring: exact reference-model oracle + structural knot-vector oracle after every refine_knotvector / "
              "knot_refinement call of a seeded workload")
 LEVEL_TEXT = ("Each refinement is followed by exact comparison with the original shape and by the dyadic-knot / multiplicity / "
@@ -39,7 +39,8 @@ def gen(rng, tier, shard, nshards):
         pd = kw.pop('pdim')
         kw.setdefault('maxextra', {1: 5, 2: 3, 3: 2}[pd])
         kw.setdefault('maxdeg', {1: 5, 2: 3, 3: 2}[pd])
-        sd = G.rand_shape(rng, pd, clamped_only=True, **kw)
+        unclamped = 'kvcls' not in kw and rng.random() < 0.25
+        sd = G.rand_shape(rng, pd, clamped_only=not unclamped, **(dict(kw, kvcls=rng.choice(['unclamped', 'unclamped_rep'])) if unclamped else kw))
         yield {'kind': 'refine', 'sd': sd, 'seed': rng.randrange(1 << 30)}
         if i % 2 == 0:
             yield {'kind': 'helper', 'seed': rng.randrange(1 << 30)}
@@ -80,6 +81,11 @@ def structure_dir(p, U_pre, U_post, density, knot_list=None):
     for z, c in pre_cnt.items():
         m = mult(F(z))
         in_exp = any(abs(F(z) - e) <= tol for e in exp) and a < F(z) < b
+        at_end = F(z) == a or F(z) == b
+        # the ends of an unclamped domain are not interior knots: the property leaves their multiplicity open (the library raises it to
+        # at most the degree, which clamps the refined shape there; the shape oracle decides whether that was done correctly)
+        if at_end and c <= m <= max(c, p):
+            continue
         if (in_exp and m != p) or (not in_exp and m != c):
             return 'original knot %r: multiplicity %d -> %d' % (z, c, m)
     for k in post:
@@ -100,6 +106,8 @@ def check(case, ctx):
     sc = so.scale_of_defn(S0)
     tol = 1e-9 * sc
     probes = so.probe_params(rng, S0, nrand=6, maxn=26 if pdim < 3 else 12)
+    if any(kv[0] != kv[p_] or kv[-1] != kv[-p_ - 1] for kv, p_ in zip(sd['kvs'], sd['degrees'])):
+        ctx.tag('unclamped')
     ctx.tag('pdim%d' % pdim, 'rational' if sd['rational'] else 'nonrational',
             'normalized' if sd['normalize_kv'] else 'unnormalized')
     rounds = rng.randint(1, 2)
